@@ -242,7 +242,8 @@ class BankMachine(Module):
             )
         )
         fsm.act("REFRESH",
-            If(twtpcon.ready,
+            # The refresher's precharge-all closes this bank too: also wait for tRAS.
+            If(twtpcon.ready & trascon.ready,
                 refresh_gnt.eq(1),
             ),
             row_close.eq(1),
